@@ -86,3 +86,4 @@ h!(h_leaf_32, sc_leaf_32, 4, 42);
 h!(h_leaf_64, sc_leaf_64, 8, 42);
 h!(h_leaf_128, sc_leaf_128, 16, 42);
 h!(h_leaf_bool, sc_leaf_bool, 1, 42);
+hs!(h_list_rt, sc_list_rt, 2, 12);
